@@ -350,6 +350,62 @@ pub fn replay_mmapvec(args: &Args) {
     println!("{}", json!({"vectors": t.vectors, "steps": t.steps, "configs": configs, "mismatches": t.mismatches, "bad": t.bad}));
 }
 
+// ---------------------------------------------------------------- maximum expected utility (spec/GenMeu.tla)
+
+pub fn replay_meuvec(args: &Args) {
+    use rsdd::util::semirings::ExpectedUtility;
+    let text = std::fs::read_to_string(args.str("in", "")).expect("read vectors");
+    let nv = args.num("nv", 3) as usize;
+    let vecs: Vec<Value> = text.lines().map(|l| serde_json::from_str(l).unwrap()).collect();
+    let mut t = Tally { vectors: vecs.len(), steps: 0, mismatches: 0, bad: vec![] };
+    if vecs.is_empty() {
+        println!("{}", json!({"vectors": 0, "steps": 0, "configs": 0, "mismatches": 0, "bad": []}));
+        return;
+    }
+    let order: Vec<usize> = vecs[0]["order"].as_array().unwrap().iter().map(|x| x.as_u64().unwrap() as usize).collect();
+    let ord = VarOrder::new(&order.iter().map(|v| VarLabel::new_usize(*v)).collect::<Vec<_>>());
+    let b = RobddBuilder::<AllIteTable<BddPtr>>::new(ord);
+    let mut memo = HashMap::new();
+    let scale = 8f64.powi(nv as i32);
+    for v in &vecs {
+        let f = bdd_build(&b, tt_of(&v["f"]), 0, &order, nv, &mut memo);
+        let q: Vec<usize> = v["q"].as_array().unwrap().iter().map(|x| x.as_u64().unwrap() as usize).collect();
+        let qv: Vec<VarLabel> = q.iter().map(|x| VarLabel::new_usize(*x)).collect();
+        let params = rsdd::repr::WmcParams::<ExpectedUtility>::new(HashMap::from_iter(v["w"].as_array().unwrap().iter().enumerate().map(|(i, p)| {
+            let c = |x: &Value| x.as_f64().unwrap() / 8.0;
+            (VarLabel::new_usize(i), (ExpectedUtility(c(&p[0][0]), c(&p[0][1])), ExpectedUtility(c(&p[1][0]), c(&p[1][1]))))
+        })));
+        let scores: Vec<f64> = v["scores"].as_array().unwrap().iter().map(|x| x.as_f64().unwrap()).collect();
+        let opt = v["opt"].as_f64().unwrap();
+        for which in ["meu", "bb"] {
+            t.steps += 1;
+            let r = guarded(|| if which == "bb" { f.bb(&qv, nv, &params) } else { f.meu(&qv, nv, &params) });
+            let (ok, got) = match r {
+                Ok((val, m)) => {
+                    let mut bits = 0usize;
+                    let mut complete = true;
+                    for (k, x) in q.iter().enumerate() {
+                        match m.get(VarLabel::new_usize(*x)) {
+                            Some(true) => bits |= 1 << k,
+                            Some(false) => {}
+                            None => complete = false,
+                        }
+                    }
+                    (complete && val.1 * scale == opt && scores[bits] == opt, json!({"utility_x8^n": val.1 * scale, "assignment_bits": bits, "call": which}))
+                }
+                Err(m) => (false, json!({"panic": m, "call": which})),
+            };
+            if !ok {
+                t.mismatches += 1;
+                if t.bad.len() < 10 {
+                    t.bad.push(json!({"order": order, "vector": v, "got": got}));
+                }
+            }
+        }
+    }
+    println!("{}", json!({"vectors": t.vectors, "steps": t.steps, "configs": 1, "mismatches": t.mismatches, "bad": t.bad}));
+}
+
 // ---------------------------------------------------------------- weighted counts (spec/GenWmc.tla)
 
 fn weight_spec(v: &Value) -> crate::bdd_rec::WeightSpec {
